@@ -156,7 +156,7 @@ pub fn canon_permissions(p: &Option<iggy::models::permissions::Permissions>) -> 
                         sp.read_topics as u8,
                         sp.poll_messages as u8,
                         sp.send_messages as u8,
-                        if sp.topics.is_some() { "T" } else { "-" },
+                        if sp.topics.as_ref().map(|t| !t.is_empty()).unwrap_or(false) { "T" } else { "-" },
                         topics.join(",")
                     ));
                 }
@@ -175,7 +175,7 @@ pub fn canon_permissions(p: &Option<iggy::models::permissions::Permissions>) -> 
                 g.read_topics as u8,
                 g.poll_messages as u8,
                 g.send_messages as u8,
-                if p.streams.is_some() { "S" } else { "-" },
+                if p.streams.as_ref().map(|s| !s.is_empty()).unwrap_or(false) { "S" } else { "-" },
                 streams.join(";")
             )
         }
